@@ -164,6 +164,72 @@ def emit_top_binary(R):
     return wt + rt, info
 
 
+KW = ["TASMANIAN SG end", "WARNING: do not edit this manually", "global", "sequence", "localpolynomial", "wavelet", "fourier", "empty", "custom", "canonical",
+      "asinconformal", "nonconformal", "limited", "unlimited", "constructing", "static"]
+def _kw(sx):
+    return "KW_" + re.sub(r'\W+', '_', sx.strip()).strip('_')
+
+def emit_top_ascii(R):
+    """TasmanianSparseGrid::writeAscii / readAscii (top-level framing) onto a line-oriented token tape.  The header line with the version (reader: the
+    statements up to the WARNING line) is cut out: its version test is the job iotape.version_check."""
+    text = X.strip_comments(X.read_source(TOP))
+    (pw,) = X.cut(TOP, r'void\s+TasmanianSparseGrid::writeAscii\s*\(\s*std::ostream\s*&ofs\s*\)\s*const', text)
+    b = pw.body
+    b = R.sub("R12a-header", r'ofs\s*<<\s*"TASMANIAN SG "\s*<<\s*getVersion\(\)\s*<<\s*\'\\n\'\s*;', 'tape_write_line(KW_HEADER);', b)
+    b = R.sub("R12a-line", r'ofs\s*<<\s*"([^"\\]+)\\n"\s*;', lambda m: 'tape_write_line(%s);' % _kw(m.group(1)), b)
+    b = R.sub("R12a-line", r'ofs\s*<<\s*"([^"\\]+)"\s*<<\s*std::endl\s*;', lambda m: 'tape_write_line(%s);' % _kw(m.group(1)), b)
+    b = R.sub("R12a-format", r'ofs\s*<<\s*std::scientific\s*;\s*ofs\.precision\(\s*17\s*\)\s*;', '', b)
+    b = R.sub("R12a-pairs", r'for\s*\(\s*int\s+j\s*=\s*0\s*;\s*j\s*<\s*base->getNumDimensions\(\)\s*;\s*j\+\+\s*\)\s*\{\s*ofs\s*<<\s*(\w+)\[j\]\s*<<\s*" "\s*<<\s*(\w+)\[j\]\s*<<\s*\'\\n\'\s*;\s*\}',
+              r'tape_write_pairs(self->\1, self->\2, base_dims(&self->base));', b)
+    b = X.balanced_call_sub(R, "R12-writeVector", b, r'IO::writeVector<[^>]*>\s*(?=\()', lambda m, a: "tape_write_vec(self->%s)" % X.split_top(a)[0])
+    b = R.sub("R12-base-write", r'\bbase->write\(\s*ofs\s*,\s*mode_ascii\s*\)\s*;', 'tape_write_base(self);', b)
+    b = R.sub("R12-base-write", r'\bbase->writeConstructionData\(\s*ofs\s*,\s*mode_ascii\s*\)\s*;', 'tape_write_construction(self);', b)
+    for k in ("isGlobal", "isSequence", "isLocalPolynomial", "isWavelet", "isFourier", "empty"):
+        b = R.sub("R10-member-call", r'(?<![\w.>])%s\(\)' % k, 'TT_%s(self)' % k, b)
+    b = R.sub("R5g-size", r'\b(domain_transform_a|conformal_asin_power)\.size\(\)', r'self->\1.len', b)
+    b = R.sub("R5g-empty", r'\bllimits\.empty\(\)', '(self->llimits.len == 0)', b)
+    b = R.sub("R10-member", r'(?<![\w.>])using_dynamic_construction\b', 'self->using_dynamic_construction', b)
+    X.check_leftover(b, "writeAscii")
+    wt = '#line %d "%s"\nvoid top_writeAscii(const TT *self)%s\n' % (pw.line, X.REPO + "/" + pw.rel, b)
+    (pr,) = X.cut(TOP, r'void\s+TasmanianSparseGrid::readAscii\s*\(\s*std::istream\s*&ifs\s*\)', text)
+    c = pr.body
+    # cut out the header: from the declaration of `message` to the end of the statement that tests the WARNING line
+    m1 = re.search(r'std::string\s+message\s*=', c)
+    m2 = re.search(r'getline\(\s*ifs\s*,\s*T\s*\)\s*;\s*if\s*\(\s*!\(T\.compare\("WARNING: do not edit this manually"\)\s*==\s*0\)\s*\)\s*\{[^{}]*\}', c)
+    if not m1 or not m2 or m2.start() < m1.start():
+        raise X.ExtractionBreak("readAscii: the header section (message ... WARNING line) was not found")
+    c = c[:m1.start()] + c[m2.end():]
+    R.counts["R12a-header-cut"] = 1
+    c = R.sub("R5g-local-vector", r'std::vector<double>\s+new_domain_transform_a\s*,\s*new_domain_transform_b\s*;', 'gvec new_domain_transform_a = vec_none(), new_domain_transform_b = vec_none();', c)
+    c = R.sub("R5g-local-vector", r'std::vector<int>\s+(new_conformal_asin_power|new_llimits)\s*;', r'gvec \1 = vec_none();', c)
+    c = R.sub("R12-new-base", r'std::unique_ptr<BaseCanonicalGrid>\s+new_base\s*;', 'gbase new_base = base_none();', c)
+    c = R.sub("R12a-string", r'std::string\s+T\s*;', 'int T = KW_NONE;', c)
+    c = R.sub("R12a-word", r'\bifs\s*>>\s*T\s*;', 'T = tape_read_word();', c)
+    c = R.sub("R12a-getline", r'\bgetline\(\s*ifs\s*,\s*T\s*\)\s*;', 'T = tape_getline();', c)
+    c = R.sub("R12a-compare", r'\bT\.compare\(\s*"([^"]*)"\s*\)', lambda m: 'tsg_kwcmp(T, %s)' % _kw(m.group(1)), c)
+    c = R.sub("R12-read-family", r'\bnew_base\s*=\s*readGridVersion5<(\w+)>\(\s*acceleration\.get\(\)\s*,\s*ifs\s*,\s*IO::mode_ascii_type\(\)\s*\)\s*;', r'new_base = tape_read_base_a(K_\1);', c)
+    c = R.sub("R5g-resize", r'\bnew_domain_transform_[ab]\.resize\(\s*new_base->getNumDimensions\(\)\s*\)\s*;', '', c)
+    c = R.sub("R12a-pairs", r'for\s*\(\s*int\s+j\s*=\s*0\s*;\s*j\s*<\s*new_base->getNumDimensions\(\)\s*;\s*j\+\+\s*\)\s*\{\s*ifs\s*>>\s*(\w+)\[j\]\s*>>\s*(\w+)\[j\]\s*;\s*\}',
+              r'tape_read_pairs(&\1, &\2, base_dims(&new_base));', c)
+    c = X.balanced_call_sub(R, "R12-readVector", c, r'IO::readVector<\s*IO::mode_ascii_type\s*,\s*\w+\s*>\s*(?=\()', lambda m, a: "tape_read_vec_a((size_t)(%s))" % X.split_top(a)[1])
+    c = R.sub("R5g-empty-vector", r'=\s*std::vector<int>\(\)\s*;', '= vec_none();', c)
+    c = R.sub("R10-base-call", r'\bnew_base->getNumDimensions\(\)', 'base_dims(&new_base)', c)
+    c = R.sub("R12-base-read", r'\bnew_base->readConstructionData\(\s*ifs\s*,\s*mode_ascii\s*\)\s*;', 'tape_read_construction_a(&new_base);', c)
+    c = X.r9_throws(R, c)
+    c = R.sub("R10-member-call", r'(?<![\w.>])clear\(\)\s*;', 'TT_clear(self);', c)
+    c = R.sub("R2-std-move", r'std::move\((\w+)\)', r'\1', c)
+    for mname in ("base", "domain_transform_a", "domain_transform_b", "conformal_asin_power", "llimits", "using_dynamic_construction"):
+        c = R.sub("R10-member", r'(?<![\w.>_])%s\s*=(?!=)' % mname, 'self->%s =' % mname, c)
+    X.check_leftover(c, "readAscii")
+    R.require({"R12-read-family": 5, "R12-readVector": 2, "R12a-getline": 6, "R12a-compare": 12, "R12a-line": 12, "R12a-pairs": 2, "R12a-word": 1})
+    rt = '#line %d "%s"\nvoid top_readAscii(TT *self)%s\n' % (pr.line, X.REPO + "/" + pr.rel, c)
+    kws = "enum { KW_NONE = 0, KW_EMPTYLINE, KW_HEADER, " + ", ".join(_kw(k) for k in KW) + " };\n"
+    info = {"functions": [{"name": "TasmanianSparseGrid::writeAscii", "file": pw.rel, "line": pw.line, "loops": 1}, {"name": "TasmanianSparseGrid::readAscii (after the header lines)", "file": pr.rel, "line": pr.line, "loops": 1}],
+            "rules_fired": {k: v for k, v in R.counts.items() if v},
+            "drops": ["readAscii: the statements that parse the first two lines (TASMANIAN SG <version>, WARNING line); the version test is iotape.version_check",
+                      "text lines become keyword tokens; `ifs >> x` and the family readers leave the rest of their line for the next getline (flag on the tape)", "number formatting (scientific, precision 17)"]}
+    return kws, wt + rt, info
+
 def emit_version_check(R):
     """The version test of TasmanianSparseGrid::readAscii (block selector): from `if (vmajor < 3)` to the end of the future-version test."""
     text = X.strip_comments(X.read_source(TOP))
